@@ -63,9 +63,9 @@ def corr_replay(env):
         want = np.nan_to_num(pd.DataFrame(np.column_stack(Z)).corr().to_numpy(), nan=0.0)
         got = R.to_numpy()
         ridge = np.linalg.cond(want) > 1.0 / np.finfo(float).eps
-        if not np.allclose(got, want + (np.identity(len(want)) * EPSILON if ridge else 0), atol=1e-12):
+        if not np.allclose(got, want + (np.identity(len(want)) * EPSILON if ridge else 0), rtol=0, atol=1e-9):
             bad.append('%s: correlation differs from corr(normal scores): max diff %.3g' % (name, np.abs(got - want).max()))
-        if ridge != (not np.allclose(got, want, atol=1e-12)):
+        if ridge != (not np.allclose(got, want, rtol=0, atol=1e-9)):
             bad.append('%s: ill-conditioned (cond = %.3g) but %s ridge' % (name, np.linalg.cond(want), 'no' if ridge else 'a'))
         try:
             m.sample(3)
